@@ -24,10 +24,23 @@ from .. import docspace as DS
 from gherkin.token_formatter_builder import TokenFormatterBuilder
 
 
-def delivery_oracle(n, built, unexpected, n_errors, accepted, case, acc, capped=False):
+def delivery_oracle(n, built, unexpected, n_errors, accepted, case, acc, capped=False, last_error_line=None):
     """built: list of (line, is_eof) in delivery order; unexpected: list of line numbers reported as unexpected
     (line n+1 = end of file).  n = number of physical lines."""
     lines = [b[0] for b in built]
+    if not accepted:
+        beyond = [l for l in unexpected if not (isinstance(l, int) and 1 <= l <= n + 1)]
+        if beyond:
+            acc.violation('report-outside-document', case, 'lines %s of a %d-line document reported as unexpected' % (beyond, n))
+            return
+        if unexpected.count(n + 1) > 1:
+            acc.violation('delivery-eof', case, 'end of file reported %d times' % unexpected.count(n + 1))
+            return
+        if capped and last_error_line is not None:
+            late = [l for l in lines if l > last_error_line]
+            if late:
+                acc.violation('delivery-after-limit', case, 'the eleventh error (line %d) stops the parse, but lines %s were still delivered to the builder' % (last_error_line, late))
+                return
     if accepted:
         if lines != list(range(1, n + 2)) or [b[1] for b in built] != [False] * n + [True]:
             acc.violation('delivery-accepted', case, 'accepted %d-line document: builder received lines %s (EOF flags %s)' % (n, lines, [b[1] for b in built][-3:]))
@@ -78,7 +91,11 @@ def check_kinds(kinds, acc, trace=False):
     acc.outcomes['accepted' if r['ok'] else 'rejected'] += 1
     if r['reads'] != n + 1 and len(r['errors']) < 11:
         acc.violation('scanner-reads', case, 'scanner was read %d times for %d lines' % (r['reads'], n))
-    delivery_oracle(n, built, unexpected, len(r['errors']), r['ok'], case, acc, capped=len(r['errors']) >= 11)
+    capped = len(r['errors']) >= 11
+    last = max((e[0] for e in r['errors'] if isinstance(e[0], int)), default=None)
+    if capped and last is not None and r['reads'] > last + 3:
+        acc.violation('reads-after-limit', case, 'the eleventh error is at line %d, but the scanner was read %d times' % (last, r['reads']))
+    delivery_oracle(n, built, unexpected, len(r['errors']), r['ok'], case, acc, capped=capped, last_error_line=last)
 
 
 @worker
@@ -174,7 +191,8 @@ def check_text(text, acc, default='en'):
         errs = a[1]
         nerr = len(errs)
         unexpected = [e[0] for e in errs if e[3] in ('UnexpectedTokenException', 'UnexpectedEOFException')]
-    delivery_oracle(n, built, unexpected, nerr, a[0] == 'ok', case, acc, capped=nerr >= 11)
+    last = max((e[0] for e in a[1] if isinstance(e[0], int)), default=None) if a[0] != 'ok' else None
+    delivery_oracle(n, built, unexpected, nerr, a[0] == 'ok', case, acc, capped=nerr >= 11, last_error_line=last)
     # the printed listing reflects exactly these tokens, and equals the reference lexer's listing
     try:
         listing = fmt(toks)
@@ -275,6 +293,27 @@ def job_after_abort(ai):
     return acc
 
 
+@worker
+def job_limit(state):
+    """Error limit at kind level: from every state, m = 9..14 lines of a kind that is unexpected there, then well-formed lines: once the
+    eleventh error is recorded nothing more is delivered to the builder and the scanner is not read on."""
+    from .c02 import setup
+    spec, T, info = setup()
+    acc = Acc()
+    wit = kind_witness()[state]
+    word = None
+    bad = [k for k in KINDS if T.get((state, k, 'N'), (None, (), ()))[2]]
+    for k in bad[:3]:
+        for m in range(9, 15):
+            for tail in ((), ('FeatureLine', 'ScenarioLine', 'StepLine'), (k,), ('Comment', 'Empty', 'TagLine', 'ScenarioLine')):
+                word = wit + (k,) * m + tail
+                check_kinds(word, acc)
+                acc.counters['error_limit_words'] += 1
+    if word:
+        acc.sample({'kinds': list(word)})
+    return acc
+
+
 SIZES = (62, 63, 64, 65, 127, 128, 129, 255, 256, 257, 1000)
 LONG = (4095, 4096, 4097, 8190, 8191, 8192, 8193, 16385, 70000)
 
@@ -338,6 +377,7 @@ def run(ctx):
     r1, r2 = ctx.pick((3, 1), (4, 2))
     ctx.level('look-ahead words r1<=%d r2<=%d' % (r1, r2), [job_la.job(s, r1, r2, False) for s in la_states()])
     ctx.level('look-ahead words as text r1<=2 r2<=1', [job_la.job(s, 2, 1, True) for s in la_states()])
+    ctx.level('error limit from every state', [job_limit.job(st) for st in sorted(kind_witness()) if st != TB.FINAL])
     ctx.level('size boundaries: long tag/comment/blank runs', [job_long_runs.job(st) for st in la_states()])
     ctx.level('size boundaries: long lines', [job_long_lines.job(n) for n in LONG])
     ctx.level('abandoned parse, then the next parse', [job_after_abort.job(i) for i in range(len(ABORTS))])
